@@ -2,7 +2,7 @@ SPEC = dict(
     id="C17",
     bin="c17",
     coq_dir="C17",
-    coq_targets=["C17/Proofs.vo", "C17/Examples.vo"],
+    coq_targets=["C17/Proofs.vo", "C17/Closure.vo", "C17/Idempotent.vo", "C17/Examples.vo"],
     allowed_axioms=[],
     level_text=("Unbounded Coq theorems about an executable model of klippa's subsetting plan and per-glyph tables over an "
                 "abstract TrueType font (glyph kinds with component lists, hmtx long/short arrays, cmap pairs, UVS triples, COLR "
@@ -11,8 +11,10 @@ SPEC = dict(
                 "every kept glyph has the same advance and side bearing under its new id INCLUDING the numberOfHMetrics trimming "
                 "loop and zero-filled gaps; the subset's character list is exactly {(c, map g)} for requested c or g; a kept "
                 "glyph's record is the original with component ids renamed; subsetting to everything is the identity renumbering. "
-                "Component-closedness of the retained set is FALSE of the faithful model (closure stops at nesting depth 64 / an "
-                "operation budget): proved refuted with witnesses that reproduce on the real code (finding F-7). The model is tied "
+                "The retained set is component-closed under the explicit hypotheses the code needs (component ids inside the font, "
+                "nesting at most 65 levels, operation budget >= number of glyphs); without them the statement is FALSE of the faithful "
+                "model (closure stops at nesting depth 64 / an operation budget): proved refuted with witnesses that reproduce on the "
+                "real code (finding F-7). The model is tied "
                 "to klippa on every run by vm_compute on ~5.5k (font, request, flags) cases over all glyf fonts of the repository "
                 "corpus plus synthetic boundary fonts. Outline / advance / side-bearing equality at every size and variation "
                 "location, cmap of the re-opened subset, subset-of-subset and subset-to-everything stability are checked on the "
